@@ -10,7 +10,7 @@ namespace HC.Proto.H11
 open HC HC.Stream HC.Lib HC.Extracted.H11Tables
 
 theorem ev_ok (cfg : Cfg) (st : St) (g : Ws.Frag) (e : LibEv) (hI : Inv st g) (hpc : st.pc = .inLoop) (hsw : st.switched = false)
-    (hp : libPossible cfg st g e = true) (hdec : decodeSitesTotal = true) :
+    (hp : libPossible cfg st g e = true) (hdec : decodeSitesTotal = true) (hname : Ws.Handshake.NamesLowered) :
     escapeEv cfg st e = none ∧ ∃ res, onLibEv cfg st e = some res ∧ Inv res.1 (ghostEv g e) := by
   obtain ⟨htop, hI1, hw1⟩ := loopTop_ok cfg st g hI hsw
   have hshape := loopTop_shape cfg st
@@ -27,7 +27,7 @@ theorem ev_ok (cfg : Cfg) (st : St) (g : Ws.Frag) (e : LibEv) (hI : Inv st g) (h
     unfold escapeEv; rw [htop]; simp
   rw [hon, hesc]
   cases e with
-  | request r => exact ev_request cfg _ _ g r hI1 hpc1 hsw1 hp hdec
+  | request r => exact ev_request cfg _ _ g r hI1 hpc1 hsw1 hp hdec hname
   | data d => exact ⟨rfl, ev_data cfg _ _ g d hI1 hp⟩
   | eom => exact ⟨rfl, ev_eom cfg _ _ g hI1 hp⟩
   | connClosed => exact ⟨rfl, ev_connClosed cfg _ _ g hI1 hw1' hp⟩
@@ -68,7 +68,7 @@ def ghostT (g : Ws.Frag) : OpT → Ws.Frag
 
 /-- **one op**: enabled and started from the invariant, it lets nothing escape, is accepted by the model and keeps the invariant -/
 theorem step_ok (cfg : Cfg) (token : Bytes → Bytes) (ext : Option Bytes) (st : St) (g : Ws.Frag) (o : OpT) (hI : Inv st g)
-    (hen : enabled cfg st g o = true) (hdec : decodeSitesTotal = true) :
+    (hen : enabled cfg st g o = true) (hdec : decodeSitesTotal = true) (hname : Ws.Handshake.NamesLowered) :
     escapeT cfg st o = none ∧ ∃ r, stepT cfg token ext st o = some r ∧ Inv r.1 (ghostT g o) := by
   cases o with
   | deferredClose => exact ⟨rfl, _, rfl, inv_maybeRecycle hI⟩
@@ -81,7 +81,7 @@ theorem step_ok (cfg : Cfg) (token : Bytes → Bytes) (ext : Option Bytes) (st :
         (fun h1 h2 h3 => ⟨(hI.wait h1 h2 h3).1, rfl⟩)
     | ev e =>
       simp only [enabled, Bool.and_eq_true, beq_iff_eq, Bool.not_eq_true'] at hen
-      obtain ⟨hesc, res, hres, hinv⟩ := ev_ok cfg st g e hI hen.1.1 hen.1.2 hen.2 hdec
+      obtain ⟨hesc, res, hres, hinv⟩ := ev_ok cfg st g e hI hen.1.1 hen.1.2 hen.2 hdec hname
       exact ⟨hesc, (res.1, res.2, none), by simp [stepT, step, hres], hinv⟩
     | sendHttp i m => exact ⟨rfl, _, rfl, appSendHttp_inv cfg st g i m hI hen⟩
     | sendWs i m => exact ⟨rfl, _, rfl, appSendWs_inv cfg token ext st g i m hI⟩
@@ -129,7 +129,8 @@ def NoEscape (cfg : Cfg) (token : Bytes → Bytes) (ext : Option Bytes) : St →
   | _, _, [] => True
   | st, g, o :: os => escapeT cfg st o = none ∧ ∃ r, stepT cfg token ext st o = some r ∧ NoEscape cfg token ext r.1 (ghostT g o) os
 
-theorem noEscape_of_inv (cfg : Cfg) (token : Bytes → Bytes) (ext : Option Bytes) (hdec : decodeSitesTotal = true) :
+theorem noEscape_of_inv (cfg : Cfg) (token : Bytes → Bytes) (ext : Option Bytes) (hdec : decodeSitesTotal = true)
+    (hname : Ws.Handshake.NamesLowered) :
     ∀ (ops : List OpT) (st : St) (g : Ws.Frag),
     Inv st g → LibWf cfg token ext st g ops → NoEscape cfg token ext st g ops := by
   intro ops
@@ -138,7 +139,7 @@ theorem noEscape_of_inv (cfg : Cfg) (token : Bytes → Bytes) (ext : Option Byte
   | cons o os ih =>
     intro st g hI hwf
     obtain ⟨hen, hrest⟩ := hwf
-    obtain ⟨hesc, r, hr, hinv⟩ := step_ok cfg token ext st g o hI hen hdec
+    obtain ⟨hesc, r, hr, hinv⟩ := step_ok cfg token ext st g o hI hen hdec hname
     exact ⟨hesc, r, hr, ih _ _ hinv (hrest r hr)⟩
 
 /-- the state after a run (when every op was accepted) -/
